@@ -479,9 +479,10 @@ fn so_out<T>(ok: bool, so: StreamOutcome<T>, errors: Vec<usize>, seed: impl FnOn
     Out {
         ok,
         has_outcome: true,
-        state: format!("{:?}", so.state),
-        processed: so.fn_ids_processed.iter().map(|i| i.index()).collect(),
-        not_processed: so.fn_ids_not_processed.iter().map(|i| i.index()).collect(),
+        // fields and accessor methods must tell the same story
+        state: if so.state() == so.state { format!("{:?}", so.state) } else { format!("{:?} (field) but state() = {:?}", so.state, so.state()) },
+        processed: if so.fn_ids_processed() == so.fn_ids_processed.as_slice() { so.fn_ids_processed.iter().map(|i| i.index()).collect() } else { so.fn_ids_processed().iter().map(|i| i.index()).chain([usize::MAX]).collect() },
+        not_processed: if so.fn_ids_not_processed() == so.fn_ids_not_processed.as_slice() { so.fn_ids_not_processed.iter().map(|i| i.index()).collect() } else { so.fn_ids_not_processed().iter().map(|i| i.index()).chain([usize::MAX]).collect() },
         errors,
         seed: seed(so.value),
     }
